@@ -11,4 +11,7 @@ PM1 == << <<O("put", 1, 1), O("get", 2, 0)>>, <<O("put", 2, 2), O("remove", 1, 0
 PM2 == << <<O("put", 1, 1), O("put", 1, 2)>>, <<O("get", 1, 0), O("remove", 1, 0)>>, <<O("clear", 0, 0)>> >>
 \* list table
 PL1 == << <<O("put", 1, 1), O("get", 1, 0)>>, <<O("put", 1, 2), O("remove", 1, 0)>>, <<O("walk", 0, 0)>> >>
+\* list table with the unique option
+PU1 == << <<O("put", 1, 1), O("get", 1, 0)>>, <<O("put", 1, 2)>>, <<O("put", 1, 3), O("walk", 0, 0)>> >>
+PU2 == << <<O("put", 1, 1), O("put", 2, 1)>>, <<O("put", 1, 2), O("remove", 1, 0)>>, <<O("walk", 0, 0)>> >>
 ====
